@@ -87,3 +87,17 @@ def canon(e):
 def snapshot(obj):
     """Shallow snapshot of a decomposition dict (keys by identity, values as they are)."""
     return [(k, v) for k, v in obj.decomposition_dict.items()]
+
+
+
+def registered_functions():
+    """the functions of the class-level registry, whatever holds them there (objects or weak references)"""
+    import weakref
+    from PEPit import Function
+    out = []
+    for f in Function.list_of_functions:
+        if isinstance(f, weakref.ReferenceType):
+            f = f()
+        if f is not None:
+            out.append(f)
+    return out
